@@ -200,6 +200,40 @@ func check(in Input) (ok bool, v verdict) {
 				}
 				_, r := fail(fp, fmt.Sprintf("n=%d (caller bytes that reached the writer)", reached), fmt.Sprintf("n=%d", m), classes...)
 				res = &r
+				return
+			}
+			// Resumption. The count tells the caller where to go on; when the bytes that reached the
+			// underlying writer end where the writer believes it stands (at a line start, or in a line
+			// behind its complete prefix - not inside a prefix, which the writer cannot know), writing
+			// the rest of this chunk and the remaining chunks to a writer that has recovered must
+			// complete the reference rendering: a failed call leaves nothing behind that is sent again
+			// or left out.
+			if strings.Contains(in.Prefix, "\n") || len(c) == 0 {
+				return
+			}
+			L := len(u.got)
+			insidePrefix := L > 0 && L < len(idx) && idx[L-1] == -1 && idx[L] == -1
+			truePartial := L > 0 && u.got[L-1] != '\n'
+			believed := c[len(c)-1] != '\n'
+			if insidePrefix || truePartial != believed {
+				return
+			}
+			u.nofail, u.failed = true, false
+			rest := append([]string{c[m:]}, in.Chunks[ci+1:]...)
+			for ri, r := range rest {
+				if r == "" {
+					continue
+				}
+				v.writes++
+				if k, err := w.Write([]byte(r)); err != nil || k != len(r) {
+					_, x := fail("resumed-write-fails", fmt.Sprintf("%d, nil", len(r)), fmt.Sprintf("write %d after the fault returned %d, %v", ri, k, err), classes...)
+					res = &x
+					return
+				}
+			}
+			if string(u.got) != string(want) {
+				_, x := fail("output-differs-after-resuming-from-the-reported-count", fmt.Sprintf("%q", want), fmt.Sprintf("%q (fault after %d bytes, resumed at byte %d of chunk %d)", u.got, L, m, ci), classes...)
+				res = &x
 			}
 			return
 		}
